@@ -357,9 +357,11 @@ func runC12(c *run.Ctx) {
 					guard(func() error { _, err := yae.NewExpr().Compile(f.src(k), normal); return err })
 					return float64(mallocs() - before)
 				}
-				c.Input(fmt.Sprintf("%s d=20,21", f.name))
-				if a, b := probe(20), probe(21); a > 5000 && b/a >= 1.7 {
-					c.Violation("super-polynomial-cost", fmt.Sprintf("family %q: cost grows by a factor %.2f from depth 20 to 21 (%.0f -> %.0f allocations); depth %d not attempted", f.name, b/a, a, b, d), nil)
+				c.Input(fmt.Sprintf("%s d=20,24", f.name))
+				// (four levels apart: some families only nest on every second level;
+				// cubic growth gives 1.73, doubling per level 16, per second level 4)
+				if a, b := probe(20), probe(24); a > 5000 && b/a >= 2.5 {
+					c.Violation("super-polynomial-cost", fmt.Sprintf("family %q: cost grows by a factor %.2f from depth 20 to 24 (%.0f -> %.0f allocations); depth %d not attempted", f.name, b/a, a, b, d), nil)
 					return
 				}
 				c.Input(fmt.Sprintf("%s d=%d", f.name, d))
